@@ -25,7 +25,9 @@ ASSUMPTIONS = [
 
 LETTERS = ["A", "A2", "B", "U", "S"]
 PROBE_NAMES = ["user_name_avp", "user_name_avp__1", "origin_host_avp", "unknown_avp", "session_id_avp",
-               "custom_avp", "host", "user_name_avp__2", "origin_realm_avp"]
+               "custom_avp", "host", "user_name_avp__2", "origin_realm_avp",
+               # names of the container's own attributes are not AVPs
+               "_header", "_avps", "_loaded"]
 NEW_KEYS = ["custom_avp", "host"]
 UPDATES = [("user_name", "b"), ("origin_host", "x.example"), ("nonexistent", "v"), ("user_name__1", "c")]
 
